@@ -113,6 +113,10 @@ Section Indexed.
   Definition x_kv (s : xstate) : option (K * V) :=
     match x_data s with Some d => dobs d | None => None end.
 
+  (* the machine as a black box for the iterator above it (the merged iterator of a DB) *)
+  Definition indexed_step (fuel : nat) (s : xstate) (m : move K) : xstate :=
+    match x_step fuel s m with XOk s' _ => s' | XOutOfFuel => s end.
+
   Fixpoint x_run (fuel : nat) (s : xstate) (ms : list (move K)) : option (list (output K V)) :=
     match ms with
     | [] => Some []
